@@ -149,3 +149,22 @@ Definition ok_f (x : fcase) : bool :=
   | None => true
   end.
 Definition mismatches_f := mismatches ok_f.
+
+(* ---------- (d) steered event scripts: partitions dropped from a waiting buffer ---------- *)
+(* one event script per broker worker involved (the harness steers the order with a gated mock broker: the first
+   request stays unanswered while the next buffer fills, then its response drops a partition from that buffer);
+   ec_flushed: every message got its outcome with no further input *)
+Record ecase := { ec_cfg : cfg; ec_workers : list (list event); ec_flushed : bool }.
+Definition worker_drains (c : cfg) (evs : list event) : bool := drained (drain c (fst (run c binit evs))).
+(* whether or not the timer fires before the response arrives must not matter *)
+Fixpoint with_timer_before_responses (evs : list event) : list event :=
+  match evs with
+  | [] => []
+  | EvResponse d r :: rest => EvTimer :: EvResponse d r :: with_timer_before_responses rest
+  | e :: rest => e :: with_timer_before_responses rest
+  end.
+Definition ok_e (x : ecase) : bool :=
+  let a := forallb (worker_drains (ec_cfg x)) (ec_workers x) in
+  let b := forallb (fun evs => worker_drains (ec_cfg x) (with_timer_before_responses evs)) (ec_workers x) in
+  if Bool.eqb a b then Bool.eqb (ec_flushed x) a else true.
+Definition mismatches_e := mismatches ok_e.
